@@ -52,6 +52,7 @@ def cases(tier):
     for trials in (0, 1, 2, 3):
         cs.append(dict(kind='wrapup', trials=trials, hard2=False))
     cs.append(dict(kind='wrapup', trials=1, hard2=True))   # a movable hard module of two rectangles with different areas
+    cs.append(dict(kind='wrapup', trials=1, hard2=False, pads=True))   # plus movable terminals: a bare point and a pad with a footprint
     if tier == 'thorough':
         cs.append(dict(kind='wrapup', trials=3, hard2=True))
     return cs
@@ -221,9 +222,16 @@ def body_wrapup(I, case):
     tx, ty = I.real('tx', 0, 9), I.real('ty', 0, 9)
     mods['PIN'] = {'terminal': True, 'fixed': True, 'center': [tx, ty]}   # a fixed I/O pin
     w3 = I.real('w3', 0.1, 10)
-    tree = {'Modules': mods, 'Nets': [['S0', 'S1', 'HM', w3], ['S2', 'FX', 2.0], ['S1', 'S2'], ['PIN', 'S0'], ['S0', 'S1', 'S2', 'HM']]}
+    nets = [['S0', 'S1', 'HM', w3], ['S2', 'FX', 2.0], ['S1', 'S2'], ['PIN', 'S0'], ['S0', 'S1', 'S2', 'HM']]
     # the nets as the document states them (the placer's own constructor must not change them either)
     nets_doc = [(['S0', 'S1', 'HM'], w3), (['S2', 'FX'], 2.0), (['S1', 'S2'], 1), (['PIN', 'S0'], 1), (['S0', 'S1', 'S2', 'HM'], 1)]
+    if case.get('pads'):   # movable terminals: a bare one (a point) and a pad with a footprint
+        mods['Q'] = {'terminal': True}
+        qx, qy = I.real('qx', 0, 100), I.real('qy', 0, 100)
+        mods['PAD'] = {'terminal': True, 'center': [qx, qy], 'rectangles': [[qx, qy, 1.0, 0.5]]}
+        nets += [['Q', 'S1'], ['PAD', 'S2']]
+        nets_doc += [(['Q', 'S1'], 1), (['PAD', 'S2'], 1)]
+    tree = {'Modules': mods, 'Nets': nets}
     net = SP.Spectral(tree)
     names = [m.name for m in net.modules]
     before = {m.name: dict(area=m.area(), rects=[(r.center.x, r.center.y, r.shape.w, r.shape.h) for r in m.rectangles],
@@ -250,6 +258,10 @@ def body_wrapup(I, case):
     SP.spectral_layout_die = st_layout  # environment stub in both modes: replays pin the placement to the model's values
     try:
         st = net.spectral_layout(Shape(W, H), case['trials'], False)
+    except ZeroDivisionError as e:
+        I.detail = f'raised ZeroDivisionError: {e}'
+        prove('spectral-layout-succeeds', False)
+        return
     finally:
         SP.spectral_layout_die = saved
     I.reached('wrapup')
@@ -264,7 +276,7 @@ def body_wrapup(I, case):
             if m.is_terminal:  # a fixed pin keeps its place
                 prove('fixed-terminal-stays', m.center is not None and And(Eq(m.center.x, b['center'][0]), Eq(m.center.y, b['center'][1])))
             continue
-        if m.is_hard:
+        if m.is_hard and m.rectangles:
             # rigid translation: shapes and pairwise offsets unchanged; position = centroid of the rectangles
             r0, q0 = m.rectangles[0], b['rects'][0]
             prove('hard-module-moved-rigidly', And(*[And(Eq(r.shape.w, q[2]), Eq(r.shape.h, q[3]), Eq(r.center.x - r0.center.x, q[0] - q0[0]),
@@ -272,6 +284,8 @@ def body_wrapup(I, case):
             ta = sum(r.area for r in m.rectangles)
             cx = sum(r.center.x * r.area for r in m.rectangles) / ta
             cy = sum(r.center.y * r.area for r in m.rectangles) / ta
+            if m.is_terminal:   # a pad keeps its centre: it must be where its footprint is
+                prove('terminal-centre-matches-footprint', m.center is not None and And(Eq(m.center.x, cx), Eq(m.center.y, cy)))
         else:
             cx, cy = m.center.x, m.center.y
         rad = symx.sym_sqrt(b['area'] / SP.math.pi) if I.mode == 'symbolic' else math.sqrt(b['area'] / math.pi)
